@@ -510,6 +510,9 @@ func propC07(c *Check) {
 	ruleR07_2(c)
 	ruleR08_4(c)
 	ruleR11_1(c)
+	// a re-open reads what the previous session wrote with the previous session's settings
+	ruleR19_4(c) // filter presence comes from the table file, not from today's options
+	ruleR23_5(c) // data-key ids survive a re-open without reuse
 }
 
 // ---- C35 ----
